@@ -1115,4 +1115,7 @@ CASES += [
         Self::variants()
             .iter()
             .find(spelled_as)''', checks=['C20', 'C10']),
+ dict(id='r11-categorize-reads-another-bit', kind='fire', file='src/set.rs', old='        (self >> c) & 1 == 0', new='        (self >> (c ^ 1)) & 1 == 0', expect={'C19': 'bit c of e'}, control=False),
+ dict(id='r11-categorize-mask-form', kind='silent', file='src/set.rs', old='        (self >> c) & 1 == 0', new='        self & (1 << c) == 0', checks=['C19', 'C13']),
+ dict(id='r11-categorize-ne-form', kind='silent', file='src/set.rs', old='        (self >> c) & 1 == 0', new='        !((self >> c) & 1 != 0)', checks=['C19']),
 ]
